@@ -77,7 +77,7 @@ func specAcceptRaw(tx *types.Transaction) (bool, string) {
 				continue
 			}
 			for j, k := range v.Keys {
-				ok[i][j] = realVerify(k.Pub, hash[:], sg) == "VTrue"
+				ok[i][j] = !k.OffCurve && realVerify(k.Pub, hash[:], sg) == "VTrue"
 			}
 		}
 		if got := maxMatching(ok, n); got < m {
